@@ -121,13 +121,28 @@ def crop (g : Tg α) (a b : α) (m : CropMode) (r : Bool) : Except Err (Tg α) :
     let t' ← t.crop a b m r
     acc.addTier t' none (if m = .lax then .silence else .warning)) g0
 
-/-- `Textgrid.eraseRegion(start, end, doShrink)` -/
+/-- the new `maxTimestamp` of `Textgrid.eraseRegion` (after the fix in /repo): computed from the region clipped to the
+textgrid's span, exactly as the tiers compute theirs; unchanged when not shrinking, when the textgrid has no end, or when
+the clipped region is empty.  (A textgrid with an end but no start does not occur: the class would raise TypeError in `max`;
+the model leaves the start of the region unclipped there.) -/
+def eraseHi (lo hi : Option α) (a b : α) (sh : Bool) : Option α :=
+  match hi with
+  | none => none
+  | some h =>
+    if sh then
+      let ca := match lo with | some l => pyMax2 a l | none => a
+      let cb := pyMin2 b h
+      if ca < cb then some (shiftBack ca cb h) else some h
+    else some h
+
+/-- `Textgrid.eraseRegion(start, end, doShrink)`: the tiers are called with the region as given (they clip it to their own
+spans) -/
 def eraseRegion (g : Tg α) (a b : α) (sh : Bool) : Except Err (Tg α) :=
   if b ≤ a then .error .ArgumentError else do
   let g1 ← g.tiers.foldlM (fun acc t => do
     let t' ← t.eraseRegion a b .truncate sh
     acc.addTier t' none .warning) (ofSpan g.lo g.hi)
-  pure { g1 with hi := if sh then g.hi.map (shiftBack a b) else g.hi }
+  pure { g1 with hi := eraseHi g.lo g.hi a b sh }
 
 /-- `Textgrid.insertSpace(start, duration, collisionMode)` -/
 def insertSpace (g : Tg α) (s d : α) (m : SpaceMode) : Except Err (Tg α) :=
